@@ -27,7 +27,8 @@ BUDGET = {
 MON = ['Jan', 'Feb', 'Mar', 'Apr', 'May', 'Jun', 'Jul', 'Aug', 'Sep', 'Oct', 'Nov', 'Dec']
 BAD_NUM = ['abc', ' ', '12V', '1,5', '--3', '0x10', 'one']
 BAD_TIME = ['25:00:00', '12:61:00', '12:00', 'abc', '12:00:00:61', '12:00:00:60', '12:00:00:ab', '12:00:00.xx',
-            '1:2:3:4:5', ' ', '12:00:61', '12-00-00', '12:00:00:', ':::', '12:00:00:-5', 'aa:bb:cc']
+            '1:2:3:4:5', ' ', '12:00:61', '12-00-00', '12:00:00:', ':::', '12:00:00:-5', 'aa:bb:cc',
+            '12:00:00:inf', '12:00:00:1e999', '12:00:00:nan', '12:00:00:-Infinity', '12:00:00.inf', '12:00:inf', 'nan:00:00']
 BAD_DATE = ['32-JAN-2020', '01-XXX-2020', '2020/01/01', 'abc', ' ', '01-JAN', '30-FEB-2021', '01-13-2020',
             '2020-01-01', 'JAN-01-2020']
 
